@@ -388,6 +388,15 @@ def _run_job_once(job, workroot, keep=False):
                             res.wall = time.time() - t0
                             return res
                         lc = dict(lc, loop_id=cand[0])
+                    if 'loop_rank' in lc:
+                        # the n-th loop of the function in SOURCE order (goto-instrument numbers loops by their back edges)
+                        rc2, sl, _ = _run(['goto-instrument', '--show-loops', a_gb], wd, 120, res.cmds)
+                        byline = sorted(loops_of(sl, func), key=lambda t: t[1])
+                        if lc['loop_rank'] >= len(byline):
+                            res.reason = 'loop of %s with source rank %d not found (%d loops)' % (func, lc['loop_rank'], len(byline))
+                            res.wall = time.time() - t0
+                            return res
+                        lc = dict(lc, loop_id=byline[lc['loop_rank']][0])
                     sm, e = symbol_map(st, func, lc['symbols'], rng)
                     if sm is None:
                         res.reason = 'loop contract for %s cannot be attached: %s' % (func, e)
